@@ -46,6 +46,7 @@ func runC18(c *core.Ctx) {
 	h.headerLenAgrees("C18.2b headerLen")
 	c.Clause("C18.2c the leader-originated handlers consume exactly the announced payload on every reply path (framing of pipelined requests)")
 	h.handlersDrainPayload("C18.2c payload-drained")
+	h.failedConnNotReused("C18.2e failed-conn-not-reused")
 	h.replyRPCDecodes("C18.2d leader-request-decoded")
 	c.Clause("C18.3 admin request bodies and task responses agree branch by branch")
 	h.adminBodies("C18.3 admin")
@@ -356,18 +357,54 @@ func (h H) constsOfType(tname string) map[string]constant.Value {
 	return out
 }
 
-// switchCaseNames lists identifiers used as case labels in the (first) switch of fn.
+// switchCaseNames lists what fn dispatches on, whatever the form (switch, if
+// chain, boolean expression): the named constants and strings some value is
+// compared with for equality, and the types asserted with the comma-ok form
+// (type switch). Decided on SSA, where all these forms are `x == c`
+// comparisons and checked type assertions.
 func (h H) switchCaseNames(fn *ssa.Function) []string {
-	fd := h.P.ASTFunc(fn)
-	var out []string
-	ast.Inspect(fd.Body, func(n ast.Node) bool {
-		if cc, ok := n.(*ast.CaseClause); ok {
-			for _, e := range cc.List {
-				out = append(out, exprStr(e))
+	set := map[string]bool{}
+	constName := func(c *ssa.Const) string {
+		if c.Value == nil {
+			return ""
+		}
+		if nt, ok := c.Type().(*types.Named); ok && nt.Obj().Pkg() != nil {
+			sc := nt.Obj().Pkg().Scope()
+			for _, n := range sc.Names() {
+				if k, isC := sc.Lookup(n).(*types.Const); isC && types.Identical(k.Type(), nt) && constant.Compare(k.Val(), token.EQL, c.Value) {
+					return n
+				}
+			}
+			return ""
+		}
+		if c.Value.Kind() == constant.String {
+			return c.Value.ExactString()
+		}
+		return ""
+	}
+	core.Instrs(fn, func(in ssa.Instruction) {
+		switch x := in.(type) {
+		case *ssa.BinOp:
+			if x.Op != token.EQL && x.Op != token.NEQ {
+				return
+			}
+			for _, o := range []ssa.Value{x.X, x.Y} {
+				if c, ok := o.(*ssa.Const); ok {
+					if n := constName(c); n != "" {
+						set[n] = true
+					}
+				}
+			}
+		case *ssa.TypeAssert:
+			if x.CommaOk {
+				set[types.TypeString(x.AssertedType, func(*types.Package) string { return "" })] = true
 			}
 		}
-		return true
 	})
+	var out []string
+	for k := range set {
+		out = append(out, k)
+	}
 	sort.Strings(out)
 	return out
 }
@@ -498,6 +535,35 @@ func (h H) registries(rule string) {
 		h.C.Check(rule+" error-kinds", "decodeTaskResp kind "+k, ok && h.P.Types[core.RaftPkg].Name() == "raft", h.fpos(dt), "the task decoder recognises error kind "+k+" but package raft has no such error type (fmt %T of the real error would not match)")
 	}
 	h.C.Floor(rule+" (error kinds in decodeTaskResp)", len(kindsNamed), 4)
+	// each kind is rebuilt as the error type it names: a return that lies behind
+	// `kind == "raft.T"` (and behind no other kind's test) hands back a T. Two
+	// kinds folded into one case lose the distinction a caller relies on
+	// (ErrNotCommitReady is a temporaryError: "retry").
+	dtfi := h.P.Info(dt)
+	rebuilt := map[string]bool{}
+	for _, r := range core.Returns(dt) {
+		if len(r.Results) != 2 {
+			continue
+		}
+		for _, lf := range h.leavesAt(retOperand(r, 1), r, 0) {
+			mi, ok := lf.V.(*ssa.MakeInterface)
+			if !ok {
+				continue
+			}
+			tn := ""
+			if nt, ok := mi.X.Type().(*types.Named); ok {
+				tn = nt.Obj().Name()
+			}
+			for _, a := range dtfi.FactsAt(lf.At) {
+				if a.Op == "==" && strings.HasPrefix(a.R, "\"raft.") && strings.Trim(a.R, "\"") == "raft."+tn {
+					rebuilt[strings.Trim(a.R, "\"")] = true
+				}
+			}
+		}
+	}
+	for k := range kindsNamed {
+		h.C.Check(rule+" error-kind-rebuilt", "decodeTaskResp kind "+k, rebuilt[k], h.fpos(dt), "no return behind kind == \""+k+"\" rebuilds an error of that type: the kind is decoded as some other error type")
+	}
 	for _, must := range []string{"raft.NotLeaderError", "raft.InProgressError", "raft.plainError", "raft.temporaryError"} {
 		h.C.Check(rule+" error-kinds", "decodeTaskResp must recognise "+must, kindsNamed[must], h.fpos(dt), "kind missing from the decoder")
 	}
